@@ -351,6 +351,10 @@ def cases(rng, tier, shard, nshards):
         else:
             pts, meta = gen.curve(rng, family=pick(rng, FAMILIES), nmax=80)
             fam = meta['family']
+        lay = None
+        if rng.random() < 0.04:
+            # integral coordinates of magnitude 1e9..1e10 as int64
+            pts, fam, lay, grid, dec = gen.large_int_curve(rng, nmax=60), 'large-int64', 'i64', None, False
         n = len(pts)
         if rng.random() < 0.7:
             red = {'name': 'rdp_fixed', 'length': int(rng.integers(2, min(n, 40) + 1)),
@@ -366,7 +370,7 @@ def cases(rng, tier, shard, nshards):
                 thresholds.append([float(2.0 ** -int(rng.integers(2, 8))), float(2.0 ** -int(rng.integers(1, 7)))])
             else:
                 thresholds.append([float(10.0 ** rng.uniform(-2.5, -0.3)), float(10.0 ** rng.uniform(-2.5, -0.3))])
-        yield {'points': pts, 'family': fam, 'layout': gen.pick_layout(rng, pts), 'reduction': red,
+        yield {'points': pts, 'family': fam, 'layout': lay or gen.pick_layout(rng, pts), 'reduction': red,
                'thresholds': thresholds, 'grid_step': (int(2 ** int(rng.integers(0, grid))) if grid else 0),
                'kseed': int(rng.integers(0, 2 ** 31))}
 
